@@ -19,6 +19,12 @@ let register () =
         (match LocalStore.chunk_file_id (bool_arg unc) (bytes_of_hex ph) (bytes_of_hex nh) with
          | Some i -> id_hex i | None -> "none")
     | _ -> "ERR args");
+  (* httppath <compressed> <hex(path)> -> idhex | none   (HTTPHandler.idFromPath) *)
+  Drv.register "c20.httppath" (fun args -> match args with
+    | [comp; ph] ->
+        (match LocalStore.http_id_from_path (bool_arg comp) (bytes_of_hex ph) with
+         | Some i -> id_hex i | None -> "none")
+    | _ -> "ERR args");
   (* unhex <hex(string)> -> idhex | none   (ChunkIDFromString) *)
   Drv.register "c20.unhex" (fun args -> match args with
     | [sh] -> (match HexId.unhex_id (bytes_of_hex sh) with Some i -> id_hex i | None -> "none")
